@@ -78,6 +78,20 @@ def plan(tier, seed):
         P.add("trap", fn=pick(rng, ["trap_grad", "min_trap_grad"]), area=int(pick(rng, [1, 1, 2])),
               gmax=int(rng.integers(1, 11)), dgdt=int(pick(rng, [100, 1000, 20000, 100000])),
               dt=float(pick(rng, [1e-5, 4e-5, 1e-4])), mode="int-args", argtype="py")
+    # histories: the same designer called repeatedly with all arguments but one held fixed
+    # (anything remembered between calls must be keyed by every argument), first value again
+    # at the end
+    rngh = P.rng("hist")
+    for i in range(80 if quick else 1200):
+        base = {"area": float(10 ** rngh.uniform(-5, -2)), "gmax": float(10 ** rngh.uniform(-1, 1)),
+                "dgdt": float(10 ** rngh.uniform(2, 5)), "dt": float(10 ** rngh.uniform(-6, -4))}
+        vary = pick(rngh, ["dt", "dt", "area", "gmax", "dgdt"])
+        vals = [base[vary] * f for f in (1.0, float(pick(rngh, [0.4, 0.5, 2.0, 2.5])),
+                                         float(pick(rngh, [0.25, 4.0, 1.5])), 1.0)]
+        if vary == "gmax":
+            vals = [min(max(v, 0.1), 10.0) for v in vals]
+        P.add("trap-history", fn=pick(rngh, ["trap_grad", "min_trap_grad"]), base=base,
+              vary=vary, vals=vals)
     # directed: increments certain to need a blip longer than the sub-pulse (the known
     # finding's mechanism, so its KNOWN-FINDING line is printed on every run) and small ones
     for kk in ([[0.0, 0.0], [20.0, 0.0]], [[15.0, -15.0], [-15.0, 15.0], [0.0, 25.0]],
@@ -92,7 +106,12 @@ def plan(tier, seed):
             k[1] = list(k[0])                      # repeated location: zero increment
         if rng.random() < 0.15:
             k[0] = [0.0, k[0][1]]                  # zero increment on one axis only
-        P.add("spokes", k=k, tbw=int(pick(rng, [2, 4, 8])),
+        if rng.random() < 0.15:
+            k = [[int(round(v)) for v in row] for row in k]        # integer spoke locations
+            ktype = "int"
+        else:
+            ktype = "float"
+        P.add("spokes", ktype=ktype, k=k, tbw=int(pick(rng, [2, 4, 8])),
               sl=float(pick(rng, [2.0, 5.0, 10.0])), gmax=float(pick(rng, [2.0, 4.0])),
               dgdt=float(pick(rng, [1e4, 2e4])), dt=float(pick(rng, [4e-6, 1e-5])))
     return P.cases
@@ -167,11 +186,12 @@ def run_trap(case):
 def run_spokes(case):
     import sigpy.mri.rf.trajgrad as T
     k = np.asarray(case["k"], float).reshape(-1, 2)
+    kin = k if case.get("ktype") != "int" else np.asarray(case["k"], dtype=np.int64).reshape(-1, 2)
     tbw, sl, gmax, dgdt, dt = case["tbw"], case["sl"], case["gmax"], case["dgdt"], case["dt"]
     ns = k.shape[0]
     inc = np.diff(np.concatenate((k, np.zeros((1, 2))), axis=0), axis=0)
     big = float(np.max(np.abs(inc)))
-    sig = "|".join(map(str, ["spokes", ns, tbw, sl, gmax, dgdt, dt,
+    sig = "|".join(map(str, ["spokes", case.get("ktype", "float"), ns, tbw, sl, gmax, dgdt, dt,
                              "i%d" % int(np.floor(np.log10(max(big, 1e-9))))]))
     wit = dict(case)
     area = tbw / (sl / 10) / 4257
@@ -179,7 +199,7 @@ def run_spokes(case):
     nsub = int(np.size(subgz))
     del _BLIPS[:]
     try:
-        g = T.spokes_grad(k, tbw, sl, gmax, dgdt, dt)
+        g = T.spokes_grad(kin, tbw, sl, gmax, dgdt, dt)
     except Exception as e:
         wit["blip_samples"] = [b[1] for b in _BLIPS]
         wit["subpulse_samples"] = nsub
@@ -234,5 +254,30 @@ def run_spokes(case):
     return held(sig, obs, 3 + 2 * ns)
 
 
+def run_trap_history(case):
+    n = 0
+    last = None
+    for v in case["vals"]:
+        c = dict(case["base"])
+        c[case["vary"]] = v
+        c.update(fn=case["fn"], mode="history", gen="trap")
+        if c["area"] / (c["gmax"] * c["dt"]) > 2e6:
+            continue
+        r = run_trap(c)
+        n += r.get("checks", 0)
+        if r["verdict"] != "held":
+            r["why"] = "after calls that differed only in %s: %s" % (case["vary"], r.get("why"))
+            r["sig"] = "history|" + r.get("sig", "")
+            return r
+        last = r
+    if last is None:
+        return inconclusive("history skipped (waveform too long)")
+    last["sig"] = "history|%s|%s" % (case["fn"], case["vary"])
+    last["checks"] = n
+    return last
+
+
 def run_case(case):
+    if case["gen"] == "trap-history":
+        return run_trap_history(case)
     return run_trap(case) if case["gen"] == "trap" else run_spokes(case)
